@@ -337,6 +337,8 @@ kf("C05", "C05-uniform-matCx2-dynamic-column", "a matCx2 directly in a uniform b
 
 kf("C14", "C14-override-sized-workgroup-array", "ir.ProcessOverrides leaves the size of `var<workgroup> w: array<u32, X>` unresolved (no constant size in the resolved module) for every way of supplying X",
    ["C14|sizes|*|array-size"])
+kf("C14", "C14-workgroup-size-override-dimensions", "an override in @workgroup_size is resolved only in the x dimension of a module's single entry point: as y or z argument (`@workgroup_size(2, X)`), with a second entry point in the module, or when the size is a derived override declared before the override it depends on, every backend (SPIR-V LocalSize, HLSL numthreads, GLSL local_size, also via glsl.Options.PipelineConstants) emits 1 for that dimension",
+   ["C14|sizes|dim-y|workgroup-size:*", "C14|sizes|dim-z|workgroup-size:*", "C14|sizes|dims-xyz|workgroup-size:*", "C14|sizes|second-entry-point|workgroup-size:*", "C14|sizes|derived-reverse|workgroup-size:*"])
 
 json.dump(K, open("known_findings.json", "w"), indent=1)
 print(len(K), "entries")
